@@ -48,6 +48,7 @@ def genNN (s : SchemaD) (mode : Nat) : Ty → Nat → RVal
   | .nonNull t, h => genNN s mode t h
   | .list t, h =>
     if mode == 1 && mix h 0 % 16 == 7 then .leaf (.num 5)
+    else if mode == 1 && mix h 0 % 16 == 8 then .leaf (.str "ab")       -- a string at a list position is not iterated
     else
       let items := (List.range (mix h 1 % 4)).map fun i => genVal s mode t (mix h (2 + i))
       -- a lazy iterable that raises ResolverError after yielding its items
